@@ -340,6 +340,7 @@ fn check_open(img: &Img, ghost: &Img, n: usize, c: &[Commit; 4], k: usize, lr: u
             assert!(w.root.free_offset >= c[got].end);
             assert!(w.root.free_offset <= img.size);
             let x: usize = kani::any();
+            kani::assume(x < vf::WD);
             kani::assume((x as i64) < c[got].end - vf::DATA);
             assert!(img.data(x) == ghost.data(x));
             // Data appended after the recovered commit is not visible: the frontier is exactly
@@ -393,6 +394,11 @@ fn no_bug_values(_b: buggy::Bug) -> StorageError {
     panic!("a buggy::Bug value exists under Kani")
 }
 
+/// `OwnedFd::drop` calls close(2) on the model's fake descriptor when `Writer::open` fails.
+fn close_nop(_fd: core::ffi::c_int) -> Result<(), Errno> {
+    Ok(())
+}
+
 fn fresh_writer() -> Writer {
     match Writer::create(vf::fake_fd()) {
         Ok(w) => w,
@@ -415,6 +421,7 @@ fn reopen_clean() -> Writer {
 #[kani::proof]
 #[kani::unwind(50)]
 #[kani::stub(<StorageError as core::convert::From<buggy::Bug>>::from, no_bug_values)]
+#[kani::stub(aranya_libc::sys::unix::close, close_nop)]
 fn c15_crash_three_commits() {
     let mut c = [NO_COMMIT; 4];
     let mut w = fresh_writer();
@@ -436,6 +443,7 @@ fn c15_crash_three_commits() {
 #[kani::proof]
 #[kani::unwind(50)]
 #[kani::stub(<StorageError as core::convert::From<buggy::Bug>>::from, no_bug_values)]
+#[kani::stub(aranya_libc::sys::unix::close, close_nop)]
 fn c15_crash_after_reopen() {
     let mut c = [NO_COMMIT; 4];
     let mut w = fresh_writer();
@@ -459,6 +467,7 @@ fn c15_crash_after_reopen() {
 #[kani::proof]
 #[kani::unwind(50)]
 #[kani::stub(<StorageError as core::convert::From<buggy::Bug>>::from, no_bug_values)]
+#[kani::stub(aranya_libc::sys::unix::close, close_nop)]
 fn c15_crash_after_torn_recovery() {
     let mut c = [NO_COMMIT; 4];
     let mut w = fresh_writer();
@@ -495,6 +504,7 @@ fn c15_crash_after_torn_recovery() {
 #[kani::proof]
 #[kani::unwind(50)]
 #[kani::stub(<StorageError as core::convert::From<buggy::Bug>>::from, no_bug_values)]
+#[kani::stub(aranya_libc::sys::unix::close, close_nop)]
 fn c15_crash_during_create() {
     let w = fresh_writer();
     core::mem::forget(w);
@@ -530,6 +540,7 @@ fn c15_crash_during_create() {
 #[kani::proof]
 #[kani::unwind(50)]
 #[kani::stub(<StorageError as core::convert::From<buggy::Bug>>::from, no_bug_values)]
+#[kani::stub(aranya_libc::sys::unix::close, close_nop)]
 fn c15_crash_two_commits() {
     let mut c = [NO_COMMIT; 4];
     let mut w = fresh_writer();
@@ -538,7 +549,7 @@ fn c15_crash_two_commits() {
     c[2] = do_commit(&mut w, 2, a);
     core::mem::forget(w);
     let n: usize = kani::any();
-    reopen_and_check(n, &c, 2, false);
+    reopen_and_check(n, &c, 2, true);
 }
 
 // ---- probes (temporary) ----
@@ -620,6 +631,7 @@ fn probe_append(w: &mut Writer) -> Result<(u64, u64), StorageError> {
 #[kani::proof]
 #[kani::unwind(50)]
 #[kani::stub(<StorageError as core::convert::From<buggy::Bug>>::from, no_bug_values)]
+#[kani::stub(aranya_libc::sys::unix::close, close_nop)]
 fn c15_probe_writer() {
     let mut w = fresh_writer();
     match probe_append(&mut w) {
@@ -792,6 +804,7 @@ fn g4(buf: &[u8], n: usize) -> Option<usize> {
 #[kani::proof]
 #[kani::unwind(50)]
 #[kani::stub(<StorageError as core::convert::From<buggy::Bug>>::from, no_bug_values)]
+#[kani::stub(aranya_libc::sys::unix::close, close_nop)]
 fn c15_probe_p6() {
     rspin(g1(&[1, 2, 3, 4], 2));
     spin(11);
